@@ -72,7 +72,7 @@ SPLITTY = [b'[1e-5, -1.5E+3, 12.25, -0]', b'"\\ud83d\\ude00\\u00e9\\n"', b'{"a\\
            b'nullx', b'TRUE', b'[00,-01,01.5]', b'/**/1', b'"a\x00b"', b'1 2 3', b'{}[]', b'"\\udbff\\udfff"',
            b'[1e]', b'[2e-,3E+ ]', b'{"a":1.5e}', b'1e ', b'-0E- ', b'[1e+]', b"{'k':[1,],}", b'[tRuE,NULL]', b'["a\x01b"]',
            b'[1 /*c*/ , 2 //d\n ]', b'[0e, 00e+]', b'[1.5E3e]', b'1.5e3e2 ', b'[1.5e3.2]', b'"\\ud83d\\uDD1G"', b'"\\ud83d\\uDT1E"',
-           b'"\\ud83d\\ud83d\\ude00"', b'"a\xe0', b'"\xe0\x9f\x80"', b'"\xed\xa0\x80"', b'"\xf4\x90\x80\x80"']
+           b'"\\ud83d\\ud83d\\ude00"', b'"\\u0x41"', b'"\\u0X1f"', b'"\\u+041"', b'"\\u 041"', b'"\\u-041"', b'"\\ud83d\\u0xde"', b'"a\xe0', b'"\xe0\x9f\x80"', b'"\xed\xa0\x80"', b'"\xf4\x90\x80\x80"']
 
 
 def split_case(rng, data, cuts, depth, flags):
